@@ -32,9 +32,10 @@ from vlib import caseio, findings  # noqa: E402
 class Violation(Exception):
     """Raised by a check when the property is violated. sig identifies the root-cause class."""
 
-    def __init__(self, sig, message, extra=None):
+    def __init__(self, sig, message, extra=None, detail=None):
         super().__init__("%s: %s" % (sig, message))
-        self.sig = sig
+        self.coarse = sig          # shrink target: the shrinker may move between details of one coarse class
+        self.sig = sig if not detail else "%s/%s" % (sig, detail)   # reported / known-finding signature
         self.message = message
         self.extra = extra
 
@@ -267,8 +268,8 @@ def _run_hyp(prop_id, part, ctx, known, tier, seed, shard, t_deadline, res):
             if v is None:
                 return
             if state["target"] is None:
-                state["target"] = v.sig
-            if v.sig != state["target"]:
+                state["target"] = v.coarse
+            if v.coarse != state["target"]:
                 return  # a different root cause: found in a later round
             state["last"] = (case, v)
             raise v
